@@ -2,8 +2,23 @@
 
 package plugin
 
-import "github.com/hashicorp/go-plugin/internal/verifhook"
+import (
+	"sync/atomic"
+
+	"github.com/hashicorp/go-plugin/internal/verifhook"
+)
 
 // VerifSetHook installs a handler called at every verifhook.Point site. It
 // exists only under the "verif" build tag, for external runtime monitors.
 func VerifSetHook(f func(name string, id uint32)) { verifhook.Set(f) }
+
+// VerifSetNextId sets the ID counter of a *MuxBroker or *GRPCBroker, so that a
+// monitor can reach the uint32 wrap-around without 2^32 reservations.
+func VerifSetNextId(b interface{}, v uint32) {
+	switch x := b.(type) {
+	case *MuxBroker:
+		atomic.StoreUint32(&x.nextId, v)
+	case *GRPCBroker:
+		atomic.StoreUint32(&x.nextId, v)
+	}
+}
